@@ -89,6 +89,7 @@ def probe_cases():
     out.append((("invalid",), handler_case(vcfg, "*/html", {"k": "invalid"}, e)))
     out.append((("ctxprobe",), {"fam": "errmap", "op": "ctxprobe"}))
     out.append((("wireprobe",), {"fam": "errmap", "op": "wireprobe"}))
+    out.append((("epprobe",), {"fam": "errmap", "op": "epprobe"}))
     return out
 
 
@@ -241,7 +242,7 @@ def derive_facts(tags, answers):
     obs = {"http": {}, "grpc": {}}
     extra = {}
     for tag, a in zip(tags, answers):
-        if tag[0] in ("ctxprobe", "wireprobe"):
+        if tag[0] in ("ctxprobe", "wireprobe", "epprobe"):
             _need(isinstance(a, dict) and "harness_error" not in a and "panic" not in a, f"{tag[0]} failed: {str(a)[:300]}")
             extra[tag[0]] = a
             continue
@@ -280,7 +281,37 @@ def derive_facts(tags, answers):
                   f"{svc} service: two configuration fields for class {act[k]}")
             _need(r["body"] == (section == "Decision"), f"{svc} service: verbose is not taken from its own section")
         _need(set(wiring[svc]) == set(CLASSES), f"{svc} service: classes {sorted(wiring[svc])}")
-    return {"http": http, "grpc": grpc, "wiring": wiring, "contexts": attaches}
+    return {"http": http, "grpc": grpc, "wiring": wiring, "contexts": attaches,
+            "endpoint": _derive_endpoint_layer(extra["epprobe"])}
+
+
+def _derive_endpoint_layer(probe):
+    """`Endpoint.CreateRequest` / `Endpoint.SendRequest` with a failing authentication strategy: the kinds put in front
+    of the strategy's error (outside in) and whether that error itself stays in the chain — the same for every cause"""
+    out = {}
+    for fn in ("create", "send"):
+        seen = set()
+        for name, p in sorted(probe.items()):
+            cause, term = norm_tree(p["cause"]), norm_tree(p[fn])
+            _need(term is not None, f"epprobe: {fn} with a failing strategy ({name}) returned no error")
+            wrappers, keeps = [], None
+            while keeps is None:
+                if vlib.canon(term) == vlib.canon(cause):
+                    keeps = True
+                    break
+                _need(term["t"] == "chain" and 1 <= len(term["es"]) <= 2 and term["es"][0]["t"] == "kind",
+                      f"epprobe: {fn} ({name}): error value not understood: {json.dumps(term)}")
+                wrappers.append(term["es"][0]["k"])
+                if len(term["es"]) == 1:
+                    keeps = False
+                else:
+                    term = term["es"][1]
+                _need(len(wrappers) <= 4, f"epprobe: {fn} ({name}): more than 4 wrappers")
+            seen.add((tuple(wrappers), keeps))
+        _need(len(seen) == 1, f"epprobe: what {fn} puts around the strategy's error depends on the error: {sorted(seen)}")
+        w, k = seen.pop()
+        out[fn] = {"wrappers": list(w), "keepsCause": k}
+    return out
 
 
 def extract(exe):
@@ -339,6 +370,11 @@ def render_lean(facts):
             "together with the `WWW-Authenticate` values collected by the error handlers -/\n"
             "def contextsAttachChallenge : List Bool :=\n  ["
             + ", ".join(str(facts["contexts"][s]).lower() for s in SERVICES) + "]\n\n"
+            "/-- `Endpoint.CreateRequest` and `Endpoint.SendRequest` when the authentication strategy of the endpoint\n"
+            "fails: the kinds put in front of the strategy's error (outside in), and whether that error stays in the chain -/\n"
+            "def endpointLayer : List (List Kind × Bool) :=\n  ["
+            + ", ".join("([" + ", ".join("." + k for k in facts["endpoint"][fn]["wrappers"]) + "], "
+                        + str(facts["endpoint"][fn]["keepsCause"]).lower() + ")" for fn in ("create", "send")) + "]\n\n"
             "end Heimdall.ErrMap.Gen\n")
 
 
@@ -729,7 +765,7 @@ def svc_scenario(path, mode):
     return None
 
 
-def svc_request(svc, path, accept, acc, mode=None, hc=None, werr=None, hdr=None):
+def svc_request(svc, path, accept, acc, mode=None, hc=None, werr=None, hdr=None, log=None, tfault=None):
     """hc: the client half-closes its connection `hc` ms after the request and then reads the answer; werr: a scripted
     pipeline step behind the path waits with the context of the request and then fails with this error value
     ({"t": "send"}: it makes a real outbound call to a server which never answers)"""
@@ -743,6 +779,12 @@ def svc_request(svc, path, accept, acc, mode=None, hc=None, werr=None, hdr=None)
         rq["hcdelay"] = hc
     if werr is not None:
         rq["werr"] = werr
+    if log:
+        # the log level of the service which gets the request (round 5)
+        rq["log"] = log
+    if tfault is not None:
+        # what the token endpoint does with token requests while this request is processed (round 5)
+        rq["tfault"] = tfault
     return rq
 
 
@@ -804,9 +846,204 @@ def gen_svc_case(rng, tmp, plain=False):
         for svc in services:
             reqs.append(svc_request(svc, path, *acc_of(), mode=rng.choice(MODES)))
     reqs += halfclose_requests(rng, acc_of)
+    if not plain:
+        # round 5: the log level of the service is a dimension of every request
+        for rq in reqs:
+            level = rng.choice(LOG_LEVELS + ["", ""])
+            if level:
+                rq["log"] = level
+    reqs += round5_requests(rng, acc_of, plain)
     rng.shuffle(reqs)
     return {"fam": "errmap", "op": "svc", "cfg": cfg, "pcfg": pcfg, "realm": realm, "rcode": rcode, "rcodes": rcodes,
             "reqs": reqs, "tmp": tmp}
+
+
+# ---------------------------------------------------------------------------------------------------------------
+# round 5: the log level of the services, the upstream of the proxy, the authentication strategies of endpoints
+
+# log levels a service can run at ("" = the no-op logger the stream used before the level became a dimension);
+# at `trace` the dump middleware of the decision and proxy services hooks the response writer
+LOG_LEVELS = ["trace", "debug", "info", "warn", "error", "disabled"]
+
+# the scripted upstream: steps of the last path segment (harness/main/errmap_ep.go: c12ServeScript)
+UP_INFOS = {"c100": 100, "p102": 102, "h103": 103}
+UP_ANSWERS = ["ok", "s404"]                               # a final response: forwarded
+UP_DIES = ["die", "reset", "partstatus", "parthdr"]       # no (complete) header section of a final response
+UP_CUT = ["partbody", "partchunk"]                        # complete header section, the announced body is cut short
+UP_HANG = "hang"                                          # nothing within serve.proxy.timeout.read
+UPSTREAM_FAILURE = {"t": "chain", "es": [{"t": "kind", "k": "communication"}, {"t": "foreign", "v": 0}], "v": 0}
+FOREIGN = {"t": "foreign", "v": 0}
+
+# what the scripted token endpoint does with a token request -> (class by the property's table, outcome for the
+# model). The class is the generator's own oracle: heimdall could not talk to the token endpoint or was refused a token
+# by it -> "communication or timeout 502"; a 200 which is not a token document at all is heimdall's "anything else".
+TOKEN_FAULTS = {
+    "ok": (None, {"k": "issued"}),
+    "s503": ("comm", {"k": "unexpectedStatus"}),
+    "s401": ("comm", {"k": "unexpectedStatus"}),
+    "garbage200": ("internal", {"k": "okUnparsable"}),
+    "err200": ("comm", {"k": "okErrorDocument"}),
+    "invalid_client": ("comm", {"k": "badRequest", "doc": True}),
+    "garbage400": ("comm", {"k": "badRequest", "doc": False}),
+    "die": ("comm", {"k": "sendFailed", "cause": FOREIGN}),
+    # the token endpoint never answers; the client half-closes -> the context of the request is cancelled
+    "hang": ("comm", {"k": "sendFailed", "cause": ctxdone("canceled")}),
+}
+TOKEN_REFUSED = ("comm", {"k": "sendFailed", "cause": FOREIGN})
+TOKEN_DEADLINE = ("comm", {"k": "sendTimedOut", "cause": ctxdone("deadline")})
+# mechanisms whose endpoint authenticates with oauth2_client_credentials (path segment after /ep/ and /epx/)
+EP_MECHS = ["remote", "generic", "introspect", "ctx", "remotebody"]
+EPX_MECHS = ["remote", "generic", "introspect", "ctx"]
+EP_HDR = {"X-Token": "opaque-token"}
+# endpoints with the other strategies: path -> (class, strategy for the model | error term)
+EPS_PATHS = {
+    "/eps/basic": (None, {"s": "basic"}),
+    "/eps/apikey": (None, {"s": "apikey"}),
+    "/eps/sig": (None, {"s": "sig", "fails": False}),
+    "/eps/sigfail": ("internal", {"s": "sig", "fails": True}),
+}
+EPS_DEAD = "/eps/apikeydead"   # the strategy is fine, the endpoint itself is dead
+KNOWN_BODY_CUT = "C12-upstream-body-cut"
+
+
+def _ep_ctx(strategy, at="mech"):
+    return {"pipe": {"cause": {"ep": {"at": at, "strategy": strategy}}, "hs": []}}
+
+
+def ep_scenario(rq):
+    """what the property says about a request of round 5 (scripted upstream, authenticating endpoints); None for
+    every other request. Keys: cls (None: no failure; "cut": see expected_class_ok), ctx (the Lean side), tree (the
+    error value the real executor returns is compared with the model's), infos."""
+    path, svc = rq["path"], rq["svc"]
+    w = rq.get("werr")
+    if w is not None and w.get("t") == "send" and w.get("auth"):
+        # Endpoint.SendRequest through an authenticating endpoint with a context which expires
+        cls, outcome = TOKEN_DEADLINE if w.get("deadline") else TOKEN_FAULTS[rq.get("tfault") or "ok"]
+        return {"cls": cls, "tree": True, "ctx": _ep_ctx({"s": "cc", "token": outcome}, at="send")}
+    if path.startswith("/up/") or path.startswith("/upwww/") or path == "/refused":
+        if svc != "proxy":
+            return {"cls": None, "ctx": {"exec": "none", "err": None}}
+        steps = [] if path == "/refused" else path.rsplit("/", 1)[1].split(".")
+        infos = [UP_INFOS[x] for x in steps[:-1]]
+        end = "die" if path == "/refused" else steps[-1]
+        if end in UP_CUT:
+            return {"cls": "cut", "infos": infos, "ctx": None}
+        dies = end in UP_DIES or end == UP_HANG
+        return {"cls": "comm" if dies else None, "infos": infos, "finalize": True,
+                "ctx": {"upstream": {"infos": infos, "end": "dies" if dies else "answers", "log": rq.get("log") or ""}}}
+    if path.startswith("/ep/"):
+        cls, outcome = TOKEN_FAULTS[rq.get("tfault") or "ok"]
+        return {"cls": cls, "tree": True, "ctx": _ep_ctx({"s": "cc", "token": outcome})}
+    if path.startswith("/epx/"):
+        cls, outcome = TOKEN_REFUSED
+        return {"cls": cls, "tree": True, "ctx": _ep_ctx({"s": "cc", "token": outcome})}
+    if path in EPS_PATHS:
+        cls, strategy = EPS_PATHS[path]
+        return {"cls": cls, "tree": True, "ctx": _ep_ctx(strategy)}
+    if path == EPS_DEAD:
+        return {"cls": "comm", "tree": True, "ctx": {"pipe": {"cause": {"term": UPSTREAM_FAILURE}, "hs": []}}}
+    return None
+
+
+def norm_tree(t):
+    """error terms compared as shapes: the wrappers net/http, net and os put around a foreign / context error
+    (*url.Error <- *net.OpError <- *os.SyscallError <- errno: their number depends on how the call failed) are dropped,
+    variants of foreign errors / chains are not distinguished"""
+    if t is None:
+        return None
+    if t["t"] == "wrap":
+        x = norm_tree(t["e"])
+        return x if x["t"] in ("foreign", "ctxdone") else {"t": "wrap", "e": x}
+    if t["t"] in ("join", "chain"):
+        return {"t": t["t"], "es": [norm_tree(x) for x in t["es"]]}
+    if t["t"] == "kind":
+        return {"t": "kind", "k": t["k"]}
+    if t["t"] == "redirect":
+        return {"t": "redirect", "code": t["code"], "to": t["to"]}
+    if t["t"] == "ctxdone":
+        return {"t": "ctxdone", "c": t.get("c", "canceled")}
+    return {"t": "foreign"}
+
+
+def _up_script(rng, end, max_infos=3):
+    infos = [rng.choice(sorted(UP_INFOS)) for _ in range(rng.choice(range(max_infos + 1)))]
+    return "/up/" + ".".join(infos + [end])
+
+
+def round5_requests(rng, acc_of, plain=False):
+    """the requests of round 5 for one stack: every log level x every way the upstream can end (with 0-3 informational
+    responses before), the fixed core at `trace`; every mechanism x every fault of the token endpoint, on every
+    service; the other strategies; half-closing clients while the token endpoint / the upstream hangs"""
+    reqs = []
+    services = ("decision", "proxy", "envoy")
+
+    def lvl():
+        return rng.choice(LOG_LEVELS + [""])
+    # --- the upstream of the proxy
+    for level in LOG_LEVELS:
+        for end in UP_DIES:
+            reqs.append(svc_request("proxy", _up_script(rng, end), *acc_of(), log=level))
+        reqs.append(svc_request("proxy", "/refused", *acc_of(), log=level))
+        reqs.append(svc_request("proxy", _up_script(rng, rng.choice(UP_ANSWERS)), *acc_of(), log=level))
+        reqs.append(svc_request("proxy", _up_script(rng, rng.choice(UP_CUT), max_infos=1), *acc_of(), log=level))
+    for path in ("/up/h103.die", "/up/c100.die", "/up/p102.die", "/up/p102.h103.h103.reset", "/up/h103.parthdr",
+                 "/up/h103.ok", "/up/c100.p102.h103.ok", "/upwww/h103.die", "/up/die"):
+        reqs.append(svc_request("proxy", path, *acc_of(), log="trace"))
+        reqs.append(svc_request("proxy", path, *acc_of(), log=rng.choice(LOG_LEVELS[1:] + [""])))
+    for svc in ("decision", "envoy"):
+        reqs.append(svc_request(svc, "/up/h103.die", *acc_of(), log=rng.choice(["trace", lvl()])))
+    # the client half-closes while informational responses arrive and the upstream dies
+    for path in ("/up/h103.die", _up_script(rng, rng.choice(UP_DIES))):
+        reqs.append(svc_request("proxy", path, *acc_of(), hc=rng.choice(HC_DELAYS), log=rng.choice(["trace", lvl()])))
+    # --- endpoints which authenticate: every (mechanism, fault) on some service, every (service, fault) with some
+    # mechanism
+    faults = [f for f in TOKEN_FAULTS if f != "hang"]
+    for mech in EP_MECHS:
+        for fault in faults:
+            reqs.append(svc_request(rng.choice(services), "/ep/" + mech, *acc_of(), hdr=EP_HDR, tfault=fault, log=lvl()))
+    for svc in services:
+        for fault in faults:
+            reqs.append(svc_request(svc, "/ep/" + rng.choice(EP_MECHS), *acc_of(), hdr=EP_HDR, tfault=fault,
+                                    log=lvl()))
+    for mech in EPX_MECHS:
+        reqs.append(svc_request(rng.choice(services), "/epx/" + mech, *acc_of(), hdr=EP_HDR, log=lvl()))
+    for svc in services:
+        reqs.append(svc_request(svc, "/epx/" + rng.choice(EPX_MECHS), *acc_of(), hdr=EP_HDR, log=lvl()))
+        for path in list(EPS_PATHS) + [EPS_DEAD]:
+            reqs.append(svc_request(svc, path, *acc_of(), log=lvl()))
+    # the token endpoint never answers and the context of the call expires (150 ms): the timeout kind
+    if not plain:
+        reqs.append(svc_request("proxy", "/ctxwait/9001", *acc_of(), tfault="hang", log=lvl(),
+                                werr={"t": "send", "auth": True, "deadline": 150}))
+    # the token endpoint never answers, the client half-closes: the token request is aborted
+    for svc in ("decision", "proxy"):
+        reqs.append(svc_request(svc, "/ep/" + rng.choice(EP_MECHS), *acc_of(), hdr=EP_HDR, tfault="hang",
+                                hc=rng.choice(HC_DELAYS), log=lvl()))
+    return reqs
+
+
+def gen_timeout_case(rng, tmp, ms=250):
+    """a stack whose proxy waits `ms` for the header of the upstream's response (serve.proxy.timeout.read), and calls
+    through an authenticating endpoint made with a context that expires after `ms`: the upstream / the token endpoint
+    hangs until the timeout"""
+    cfg = {"verbose": rng.random() < 0.5, "ov": dict((c, rng.choice(SVC_CODES)) for c in CLASSES)}
+    pcfg = {"verbose": rng.random() < 0.5, "ov": dict((c, rng.choice(SVC_CODES)) for c in CLASSES)}
+
+    def acc_of():
+        return rng.choice(SVC_ACCEPTS)
+    reqs = [svc_request("proxy", "/up/hang", *acc_of(), log="trace"),
+            svc_request("proxy", "/up/h103.hang", *acc_of(), log="trace"),
+            svc_request("proxy", "/up/" + rng.choice(["c100", "p102", "h103"]) + ".hang", *acc_of(),
+                        log=rng.choice(LOG_LEVELS[1:] + [""]))]
+    # (not through the proxy of this stack: its read timeout of `ms` cancels the context of the request at about the
+    # time the context of the call expires, and which of the two the call reports would be a race; the proxy gets
+    # this request in the ordinary stacks, round5_requests)
+    for n, svc in enumerate(("decision", "envoy")):
+        reqs.append(svc_request(svc, f"/ctxwait/{n}", *acc_of(), tfault="hang", log=rng.choice(LOG_LEVELS + [""]),
+                                werr={"t": "send", "auth": True, "deadline": ms}))
+    rng.shuffle(reqs)
+    return {"fam": "errmap", "op": "svc", "cfg": cfg, "pcfg": pcfg, "realm": "", "rcode": 0, "rcodes": [],
+            "ptimeout": ms, "reqs": reqs, "tmp": tmp}
 
 
 MECH_CODES = [None, 0, 300, 301, 302, 303, 304, 305, 307, 308, 309, 399, 200, 204, 299, 400, 404, 500, 599, 100, 99, 999,
